@@ -248,7 +248,10 @@ def t_expect(ctx):
         ctx.witness('finished before cancel')
 
 
-TEMPLATES = {'s1.expect': t_expect}
+from ..scenlib import t_tree
+from .. import scenlib as S
+from ._common import mk
+TEMPLATES = {'s1.expect': t_expect, 'tree': t_tree}
 
 
 def _split(cfg, n_te, n_t0, **kw):
@@ -283,4 +286,6 @@ def jobs(tier):
             out.append(Job('C18', 's1.expect', t_expect, dict(variant=v, sym_te=True), max_paths=20000))
             for te in ('0', '1/10', '1/4', '2/5'):
                 out.append(Job('C18', 's1.expect', t_expect, dict(variant=v, sym_te=False, t_e=te), max_paths=20000))
+    out += mk('C18', 'expect_leaf_of_nested_chain', S.expect_leaf_of_nested_chain(), witnesses=('expect matched',))
+    out += mk('C18', 'expects_then_late_handler', S.expects_then_late_handler())
     return out
